@@ -92,18 +92,27 @@ class Report:
 
 def inline_policy(res: "Resolver"):
     """Calls to package functions that are not part of the pinned inventory (helpers a later change extracted)
-    are spliced into the enumerated paths; the pinned functions are summarised by the rules that know them."""
-    from .inventory import KNOWN_FUNCS
+    are spliced into the enumerated paths; the pinned functions are summarised by the rules that know them.
+    *self_cls*: the concrete class of ``self`` in the analysed activation (rules that look at one protocol class at a
+    time pass it), so that ``self.hook()`` inside an inherited method resolves to that class's override."""
+    from .inventory import is_known
+    prog = res.prog
 
-    def policy(call: ast.Call, fn):
-        try:
-            ct = res.resolve_call(call, fn)
-        except Exception:
-            return None
-        if ct.unresolved or ct.ctor is not None or ct.ext or len(ct.funcs) != 1:
-            return None
-        g = ct.funcs[0]
-        if g.is_lambda or g.qualname in KNOWN_FUNCS:
+    def policy(call: ast.Call, fn, self_cls=None):
+        g = None
+        f = call.func
+        if self_cls is not None and isinstance(f, ast.Attribute) and isinstance(f.value, ast.Name) and f.value.id == "self" \
+                and fn.cls is not None and not fn.is_static and not fn.is_lambda:
+            g = prog.find_method(self_cls, f.attr)
+        if g is None:
+            try:
+                ct = res.resolve_call(call, fn)
+            except Exception:
+                return None
+            if ct.unresolved or ct.ctor is not None or ct.ext or len(ct.funcs) != 1:
+                return None
+            g = ct.funcs[0]
+        if g.is_lambda or is_known(g, prog):
             return None
         if any(isinstance(n, (ast.Yield, ast.YieldFrom)) for n in ast.walk(g.node)):
             return None
